@@ -60,6 +60,10 @@ def run_exec(cfg, b, cases, out, timeout, log):
 def run(stage, prop, tier, seed, bins, run_dir, jobs, log):
     """Returns (fragments, inconclusive messages, violations_extra)."""
     frags, inconclusive = [], []
+    if stage.get("name", "casefile") != "casefile":
+        # a second case-file stage of the same plan gets its own directory
+        run_dir = os.path.join(run_dir, stage["name"])
+        os.makedirs(run_dir, exist_ok=True)
     mv = bins["N-auto"]["mv"] if "N-auto" in bins else None
     if mv is None:
         return frags, ["casefile stage needs the native build"]
@@ -125,7 +129,7 @@ def run(stage, prop, tier, seed, bins, run_dir, jobs, log):
             f = json.load(open(frag_path))
             f["_hashes"] = frag_path + ".hashes"
             f["_wall"] = 0.0
-            f["stage"] = "casefile"
+            f["stage"] = stage.get("name", "casefile")
             f["config"] = "+".join(sorted(c for c, _ in outs))
             # attach interpreter diagnostics to abort violations
             for v in f.get("violations", []):
